@@ -118,15 +118,39 @@ class PrequeryBuilder(B.Builder):
         return obj
 
 
+class InspectBuilder(B.Builder):
+    """every scalar / vector / matrix piece is inspected through the queries that are NOT classification (variables,
+    text, hash) as soon as it is built - state those queries leave on a node must not change what it is classified as"""
+
+    def _look(self, obj):
+        for q in ("get_variables", "__repr__", "__str__", "__hash__"):
+            try:
+                getattr(obj, q)()
+            except Exception:
+                pass
+        return obj
+
+    def S(self, n):
+        return self._look(super().S(n))
+
+    def V(self, n):
+        return self._look(super().V(n))
+
+    def M(self, n):
+        return self._look(super().M(n))
+
+
 def info(tier):
     return {
         "level": LEVEL,
         "rule": "scalar recipes (directed: every family of exprcase + %d degree-risky families; random grammar); each "
         "reported finite degree (Expression.degree fresh and re-read, compute_degree, is_linear, is_quadratic, "
         "Expression.is_linear, the iterative traversal, Problem._is_linear_problem) is refuted or not by the "
-        "(d+1)-th finite difference of the reference along 3 random rational lines (exact when rational); "
+        "(d+1)-th finite difference of the reference along 3 random rational lines (exact when rational); every case is "
+        "built plainly, with every piece classified as soon as it exists (prequeried) and with every piece inspected "
+        "through get_variables / repr / str / hash first (inspected); "
         "non-trivial = >=2 operator nodes" % len(risky_families()),
-        "required_cells": [f"{fam}|{r}" for fam in [f_ for f_, _ in risky_families()] + ["shared-subexpressions"] for r in ("recursive", "iterative", "recursive-prequeried", "iterative-prequeried")],
+        "required_cells": [f"{fam}|{r}" for fam in [f_ for f_, _ in risky_families()] + ["shared-subexpressions"] for r in ("recursive", "iterative", "recursive-prequeried", "iterative-prequeried", "recursive-inspected", "iterative-inspected")],
         "assumptions": [
             "Schwartz-Zippel: a non-polynomial / higher-degree rational function has a non-zero (d+1)-th difference on "
             "random rational lines with overwhelming probability",
@@ -197,7 +221,7 @@ def run_case(case, rec, rng):
 
     def bad(route, what, reported, ex=None):
         if what == "under-reports":
-            under.setdefault(route.split(":")[0].replace("-prequeried", "") + ("+prior-degree-queries" if "prequeried" in route else ""), []).append((route, reported))
+            under.setdefault(route.split(":")[0].replace("-prequeried", "").replace("-inspected", "") + ("+prior-degree-queries" if "prequeried" in route else "+prior-other-queries" if "inspected" in route else ""), []).append((route, reported))
             return
         rec.violation(f"{route}:{what}", {"case": case, "route": route, "reported": reported,
                                           "error": repr(ex)[:300] if ex is not None else None, "show": show})
@@ -219,7 +243,7 @@ def run_case(case, rec, rng):
         if v:
             bad(route, "under-reports", d)
 
-    for cellroute in ("recursive", "iterative", "recursive-prequeried", "iterative-prequeried"):
+    for cellroute in ("recursive", "iterative", "recursive-prequeried", "iterative-prequeried", "recursive-inspected", "iterative-inspected"):
         old = AN._RECURSION_THRESHOLD
         try:
             if cellroute.startswith("iterative"):
@@ -227,7 +251,7 @@ def run_case(case, rec, rng):
             try:
                 # "prequeried": every sub-expression is classified (and caches its degree on the node) as soon as it is
                 # built, like a user inspecting pieces of a model before assembling it
-                b = (PrequeryBuilder if cellroute.endswith("prequeried") else B.Builder)(decls)
+                b = (PrequeryBuilder if cellroute.endswith("prequeried") else InspectBuilder if cellroute.endswith("inspected") else B.Builder)(decls)
                 e = b.S(node)
             except Exception as ex:
                 rec.events["unsupported-build:" + type(ex).__name__] += 1
